@@ -18,6 +18,7 @@ from mdsa.cfg import walk_local
 from mdsa.loader import AnalysisError, NoFold
 
 from mdsa import match as M
+from mdsa import match as MM
 
 from .sem import F
 from .common import Ctx, fold_str, local_defs, node_of
@@ -261,16 +262,12 @@ def interpret(g, fi, env: Dict[str, object]) -> List[List[str]]:
                 tgts = st.targets if isinstance(st, ast.Assign) else [st.target]
                 for t in tgts:
                     tn = norm(t)
-                    if tn == "paths":
-                        v = norm(st.value)
-                        if v == "record":
-                            env["paths"] = NONEMPTY
-                        elif v == "None":
-                            env["paths"] = None
-                        elif "find_files" in v:
-                            env["paths"] = NONEMPTY if env["__found"] else []
+                    if isinstance(t, ast.Name) and (norm(st.value) == fi.params[1] or any(isinstance(c_, ast.Call) and call_attr(c_) == "find_files" for c_ in ast.walk(st.value))):
+                        # the file list: the caller's list, or what find_files returns
+                        if norm(st.value) == fi.params[1]:
+                            env[tn] = NONEMPTY if env["__kind"] == "list" else "<path argument>"
                         else:
-                            raise AnalysisError(f"C03.R2: unknown assignment to paths: {v}")
+                            env[tn] = NONEMPTY if env["__found"] else []
                     elif tn == "self._allow_patching":
                         trace.append(f"_allow_patching={ev(st.value, env)}")
                     elif isinstance(t, ast.Name):
@@ -476,38 +473,50 @@ def r4_close_discard(P, rep, ctx):
 # ------------------------------------------------------------------------------------------- R5
 def r5_codec(P, rep, ctx, rule="C03.R5"):
     UB = f"{R}.IH5UserBlock"
-    sv = P.func(f"{UB}.save")
-    defs = local_defs(sv)
-    ds = [v for k, v in defs.get("dat_str", []) if v is not None]
-    ok = len(ds) == 1 and isinstance(ds[0], ast.JoinedStr)
-    if ok:
-        parts = [v.value if isinstance(v, ast.Constant) else "{" + norm(v.value) + "}" for v in ds[0].values]
-        ok = parts == ["{FORMAT_MAGIC_STR}", "\n", "{self._userblock_size}", "\n", "{self.json()}"]
-    rep.check(ok, rule, sv.qual, "writer: MAGIC, newline, size, newline, JSON without indent", sv.loc(), construct="save format", message="IH5UserBlock.save does not write `{MAGIC}\\n{size}\\n{self.json()}` (json without indent => no newline inside)")
-    g = ctx.cfg(sv)
-    wd = [n.idx for n in g.nodes if any(call_attr(c) == "write" and c.args and norm(c.args[0]) == "data" for c in g.calls(n.idx))]
-    wn = [n.idx for n in g.nodes if any(call_attr(c) == "write" and c.args and isinstance(c.args[0], ast.Constant) and c.args[0].value == b"\x00" for c in g.calls(n.idx))]
-    ok = bool(wd) and bool(wn) and all(g.every_path_passes(wd, x) for x in wn) and g.every_path_passes(wn, g.exit)
-    rep.check(ok, rule, sv.qual, "writer terminates the data with a NUL byte (the reader cuts at the first NUL)", sv.loc(), construct="NUL terminator", message="IH5UserBlock.save does not terminate the JSON with NUL: a shorter block written over a longer one (merge, recommit) leaves trailing garbage that the reader parses")
-    rep.check([norm(v) for k, v in defs.get("data", []) if v is not None] == ["dat_str.encode('utf-8')"], rule, sv.qual, "writer encodes UTF-8", sv.loc(), construct="encoding", message="save does not encode the block as UTF-8")
-    rd = P.func(f"{UB}._read_head_raw")
-    t = norm(rd.node)
-    rep.check("dat = probe.decode('utf-8').split('\\n')" in t, rule, rd.qual, "reader decodes UTF-8 and splits on newline", rd.loc(), construct="reader split", message="_read_head_raw does not decode UTF-8 / split on '\\n'")
-    rep.check("len(dat) != 3 or dat[0] != FORMAT_MAGIC_STR" in t, rule, rd.qual, "reader expects exactly three parts and the same magic constant", rd.loc(), construct="reader parts", message="_read_head_raw does not require exactly 3 parts with FORMAT_MAGIC_STR first")
-    rep.check("return (int(dat[1]), dat[2][:dat[2].find('\\x00')])" in t, rule, rd.qual, "reader takes the size from part 1 and the JSON up to the first NUL from part 2", rd.loc(), construct="reader result", message="_read_head_raw does not return (int(part1), part2 up to first NUL)")
-    rep.check("stream.seek(0)" in t and "probe = stream.read(ub_size)" in t, rule, rd.qual, "reader reads from offset 0", rd.loc(), construct="reader offset", message="_read_head_raw does not read from offset 0")
-    ld = P.func(f"{UB}.load")
-    t = norm(ld.node)
-    g = ctx.cfg(ld)
-    rr = [n.idx for n in g.nodes if n.kind == "stmt" and norm(n.stmt) == "head = cls._read_head_raw(f, head[0])"]
-    tests = [x for x in g.nodes if x.kind == "test" and "head[0]" in norm(x.exprs[0]) and "512" in norm(x.exprs[0])]
-    exact = [x for x in tests if norm(x.exprs[0]) in ("head[0] > 512", "512 < head[0]")]
-    rep.check("head = cls._read_head_raw(f, 512)" in t and bool(rr), rule, ld.qual, "reader probes 512 bytes and can re-read with the stored size", ld.loc(), construct="probe + re-read", message="load does not probe 512 bytes / re-read with the stored block size")
-    if tests and not exact:
-        rep.fail(rule, ld.qual, f"re-read condition {norm(tests[0].exprs[0])}", f"the full user block is re-read only under `{norm(tests[0].exprs[0])}` instead of whenever the stored size exceeds the 512-byte probe: longer user blocks are parsed from a truncated probe", ld.loc(tests[0].stmt))
+    svfi = P.func(f"{UB}.save")
+    sv = F(ctx, svfi)
+    g = sv.g
+    writes = sv.call_sites("__f.write(__d)")
+    data_w = [(i, c, b) for i, c, b in writes if not (isinstance(b["__d"], ast.Constant) and b["__d"].value == b"\x00")]
+    nul_w = [i for i, c, b in writes if isinstance(b["__d"], ast.Constant) and b["__d"].value == b"\x00"]
+    payload = sorted({sv.x_at(i, b["__d"]) for i, c, b in data_w})
+    want = "f'{FORMAT_MAGIC_STR}\\n{self._userblock_size}\\n{self.json()}'.encode('utf-8')"
+    rep.check(payload == [want], rule, svfi.qual, "writer: MAGIC, newline, size, newline, JSON without indent", svfi.loc(), construct="save format", message=f"IH5UserBlock.save does not write `{{MAGIC}}\\n{{size}}\\n{{self.json()}}` (json without indent => no newline inside): {payload}")
+    wd = [i for i, c, b in data_w]
+    ok = bool(wd) and bool(nul_w) and sv.all_hit_before(nul_w, nodes=wd) and sv.hit_before(g.exit, nodes=nul_w)
+    rep.check(ok, rule, svfi.qual, "writer terminates the data with a NUL byte (the reader cuts at the first NUL)", svfi.loc(), construct="NUL terminator", message="IH5UserBlock.save does not terminate the JSON with NUL: a shorter block written over a longer one (merge, recommit) leaves trailing garbage that the reader parses")
+    rep.check(payload == [want], rule, svfi.qual, "writer encodes UTF-8", svfi.loc(), construct="encoding", message="save does not encode the block as UTF-8")
+    rdfi = P.func(f"{UB}._read_head_raw")
+    rd = F(ctx, rdfi)
+    st, sz = rdfi.params[1], rdfi.params[2]
+    PROBE = f"{st}.read({sz})"
+    PARTS = f"{PROBE}.decode('utf-8').split('\\n')"
+    real = [(i, v) for i, v in rd.returns() if v is not None and not (isinstance(v, ast.Constant) and v.value is None)]
+    rep.check(bool(real) and all(PARTS in rd.x_at(i, v) for i, v in real), rule, rdfi.qual, "reader decodes UTF-8 and splits on newline", rdfi.loc(), construct="reader split", message="_read_head_raw does not decode UTF-8 / split on '\\n'")
+    parts_t = rd.tests(f"len({PARTS}) != 3")
+    magic_t = rd.tests(f"{PARTS}[0] != FORMAT_MAGIC_STR", f"FORMAT_MAGIC_STR != {PARTS}[0]")
+    ok = bool(parts_t) and bool(magic_t) and not rd.reaches(parts_t, [i for i, v in real]) and not rd.reaches(magic_t, [i for i, v in real]) and rd.all_hit_before([i for i, v in real], nodes=rd.test_nodes(parts_t)) and rd.all_hit_before([i for i, v in real], nodes=rd.test_nodes(magic_t))
+    rep.check(ok, rule, rdfi.qual, "reader expects exactly three parts and the same magic constant", rdfi.loc(), construct="reader parts", message="_read_head_raw does not require exactly 3 parts with FORMAT_MAGIC_STR first")
+    want_r = f"(int({PARTS}[1]), {PARTS}[2][:{PARTS}[2].find('\\x00')])"
+    rep.check(bool(real) and all(rd.x_at(i, v) == want_r for i, v in real), rule, rdfi.qual, "reader takes the size from part 1 and the JSON up to the first NUL from part 2", rdfi.loc(), construct="reader result", message="_read_head_raw does not return (int(part1), part2 up to first NUL)")
+    seek0 = rd.calls(f"{st}.seek(0)")
+    reads = rd.calls(f"{st}.read({sz})")
+    rep.check(bool(seek0) and bool(reads) and rd.all_hit_before(reads, nodes=seek0), rule, rdfi.qual, "reader reads from offset 0", rdfi.loc(), construct="reader offset", message="_read_head_raw does not read from offset 0")
+    ldfi = P.func(f"{UB}.load")
+    ld = F(ctx, ldfi)
+    g = ld.g
+    first = ld.call_sites("cls._read_head_raw(__f, 512)")
+    again = ld.call_sites("cls._read_head_raw(__f, __h[0])")
+    rr = [i for i, c, b in again]
+    big = ld.tests("__h[0] > 512", "512 < __h[0]")
+    other_size_tests = [t for t in g.nodes if t.kind == "test" and "512" in norm(t.exprs[0]) and t.idx not in ld.test_nodes(big)]
+    rep.check(bool(first) and bool(rr), rule, ldfi.qual, "reader probes 512 bytes and can re-read with the stored size", ldfi.loc(), construct="probe + re-read", message="load does not probe 512 bytes / re-read with the stored block size")
+    if other_size_tests and not big:
+        rep.fail(rule, ldfi.qual, f"re-read condition {norm(other_size_tests[0].exprs[0])}", f"the full user block is re-read only under `{norm(other_size_tests[0].exprs[0])}` instead of whenever the stored size exceeds the 512-byte probe: longer user blocks are parsed from a truncated probe", ldfi.loc(other_size_tests[0].stmt))
     else:
-        ok = bool(exact) and all(g.every_path_passes(rr, g.exit, src=x.idx, src_label="T") for x in exact) and g.every_path_passes([x.idx for x in exact], g.exit)
-        rep.check(ok, rule, ld.qual, "whenever the stored size exceeds the probe the block is re-read in full", ld.loc(), construct="re-read condition", message="load does not re-read the full user block whenever the stored size exceeds the probe")
-    rep.check("ret._userblock_size = head[0]" in t, rule, ld.qual, "the stored size is kept for the next save", ld.loc(), construct="size kept", message="load does not keep the stored user block size")
+        ok = bool(big) and bool(rr) and all(ld.hit_before(g.exit, nodes=rr, src_edge=e) for e in big) and ld.hit_before(g.exit, nodes=ld.test_nodes(big)) and not other_size_tests
+        rep.check(ok, rule, ldfi.qual, "whenever the stored size exceeds the probe the block is re-read in full", ldfi.loc(), construct="re-read condition", message="load does not re-read the full user block whenever the stored size exceeds the probe")
+    kept = [(i, v) for i, v, b in ld.stores("__r._userblock_size")]
+    rep.check(bool(kept) and all(MM.match("__h[0]", v) is not None for i, v in kept) and ld.hit_before(g.exit, nodes=[i for i, v in kept]), rule, ldfi.qual, "the stored size is kept for the next save", ldfi.loc(), construct="size kept", message="load does not keep the stored user block size")
     magic = P.const(R, "FORMAT_MAGIC_STR")
     rep.check(isinstance(magic, str) and "\n" not in magic and "\x00" not in magic, rule, R, "magic contains no newline / NUL", P.module(R).relpath, construct=f"magic={magic!r}", message="magic string contains a separator character")
